@@ -22,7 +22,7 @@ PROP = dict(
          "compiler+VM under step budgets {1000},{1},{2,3,7},{100}; output + final value (Runtime::top for int/bool/"
          "string) + error kind compared with Abra.Sem on the generator's own AST; every F0 program additionally: real "
          "unoptimised <main> instruction stream (optimizer-trace hook) vs compileF0, modulo label names and slot "
-         "numbering (the model emits the Pops of break/continue, fix 0c43abd); pending-jump family (harness/src/bg9cov.rs): the jump-carrying block `{ if c { break|continue } else { }; v }` as the operand of 66 constructs - every place where values wait on the operand stack or the translator pushes/consumes one by hand: binary operators and `..` at int/float/string/bool, the constant of unary minus on int AND float (also nested), not, if condition/branch, both operands of or/and, match scrutinee (int/string/bool/tuple) and arms, call arguments in every position incl. after a void argument and at float, method receiver/argument, function-value argument and callee index, tuple/array/struct/variant components after void ones, unwrap operand, index read, let/assignment/expression statement, `x op= e` at int and float, `a[i] = e` / `a[i] op= e` on arrays and on a user Index with the jump in the array, the index and the right-hand side, `o.f = e` / `o.f op= e` with the jump in object and right-hand side incl. a void field, push argument, the condition of an inner while and the iterable of an inner for (jump of the ENCLOSING loop), an inner loop with its own jump, the same inside a lambda, an array literal of 65538 elements with the jump beyond element 65535 - each under while / for over an array / for over a range x break / continue x operand / statement placement x <main> / function (quick: 397 programs, thorough: 794), the loop nested in `100 + { loop; acc }` so that a leaked or over-popped slot changes the printed value; oracle 1: expected output computed in Rust; oracle 2 (`pending ...`): the number of Pops the real translator emits for every break/continue (unoptimised assembly, instructions carry their source line) against the Lean model Abra.Pending of the true operand-stack depth - flags a missing or surplus count even where the value happens to survive; coverage-guided template families with Rust oracles (harness/src/bg9cov.rs): calls with 31..64 arguments through a generic / member function / function value / lambda, void struct field targets, wildcard annotations, `fs[1](4)` (D91), six D21 regression programs (break/continue in block, tuple, call-argument, `..`, array, struct, unary-minus and match operands, nested for, loop inside a lambda); ten regression programs of repaired defects (D16, D36-D39, D41, N6, N7, D59, D71) must behave as "
+         "numbering (the model emits the Pops of break/continue, fix 0c43abd); pending-jump family (harness/src/bg9cov.rs): the jump-carrying block `{ if c { break|continue } else { }; v }` as the operand of 66 constructs - every place where values wait on the operand stack or the translator pushes/consumes one by hand: binary operators and `..` at int/float/string/bool, the constant of unary minus on int AND float (also nested), not, if condition/branch, both operands of or/and, match scrutinee (int/string/bool/tuple) and arms, call arguments in every position incl. after a void argument and at float, method receiver/argument, function-value argument and callee index, tuple/array/struct/variant components after void ones, unwrap operand, index read, let/assignment/expression statement, `x op= e` at int and float, `a[i] = e` / `a[i] op= e` on arrays and on a user Index with the jump in the array, the index and the right-hand side, `o.f = e` / `o.f op= e` with the jump in object and right-hand side incl. a void field, push argument, the condition of an inner while and the iterable of an inner for (jump of the ENCLOSING loop), an inner loop with its own jump, the same inside a lambda, an array literal of 65538 elements with the jump beyond element 65535 - each under while / for over an array / for over a range x break / continue x operand / statement placement x <main> / function (quick: 397 programs, thorough: 794), the loop nested in `100 + { loop; acc }` so that a leaked or over-popped slot changes the printed value; oracle 1: expected output computed in Rust; oracle 2 (`pending ...`): the number of Pops the real translator emits for every break/continue (unoptimised assembly, instructions carry their source line) against the Lean model Abra.Pending of the true operand-stack depth - flags a missing or surplus count even where the value happens to survive; tuple-comparison family (48 quick / 480 thorough programs): tuples of arity 2-4 with int / string components (bool for == and !=) compared with < <= > >= == != on variables, on literals and as an operand, pairs with an equal prefix differing at each position (later components random) and equal tuples, plus `[x, y].sort()`; coverage-guided template families with Rust oracles (harness/src/bg9cov.rs): calls with 31..64 arguments through a generic / member function / function value / lambda, void struct field targets, wildcard annotations, `fs[1](4)` (D91), six D21 regression programs (break/continue in block, tuple, call-argument, `..`, array, struct, unary-minus and match operands, nested for, loop inside a lambda); ten regression programs of repaired defects (D16, D36-D39, D41, N6, N7, D59, D71) must behave as "
          "the reference says (spec_fail otherwise, hist keys regression:*) and their shapes are unconditionally in the stream; the three former D21 witnesses are hard regression programs (105 / 105 / 6); non-trivial = program with output, an error, or a jump in its code",
     nontrivial=lambda req, imp: (req.startswith("sem") and (imp.startswith("error") or not imp.endswith(" -")))
                                 or (req.startswith("cgen") and "jump" in imp),
@@ -47,6 +47,8 @@ PROP = dict(
         "sub-expressions run, written against the emitted instruction sequences (it covers constructs outside F0 - floats, match, calls, "
         "index/field assignment forms, for, lambdas); for F0 it agrees with compE/compS by construction (C02_pending_jump_at_depth), the "
         "agreement on whole F0 expressions is not proved",
+        "tuple comparisons are outside Abra.Sem (its `<`/`<=` are defined on ints and strings, `==` structurally): the oracle of the tuple-comparison "
+        "family is Rust's lexicographic order on the component lists (the documented order of the prelude Ord/Equal implementations for tuples)",
         "DepthSafe is no longer a hypothesis: the compile model follows the repaired translator (pending-operand count, Pops before "
         "the jump of break/continue, 0c43abd) and C02_compile_correct_F0 / _program hold for every F0 program; outside F0 "
         "(for loops, calls, tuples, match) the same behaviour is covered by the end-to-end tie only",
